@@ -932,3 +932,41 @@ def check_error_hooks(ck, ctx, rule="O-silent"):
             got, _e = call(fname, arg, silent)
             ck.ob(rule, f"{label}, silent={silent}", got == want[silent], f"expected: {want[silent]}; the hook {got}",
                   f"DDLParser.{fname} (evaluated abstractly)")
+
+
+# ---- multi-line property lists of CREATE TYPE / TABLESPACE ... (C18) ------------------------------------------------------------
+PROPERTY_LINES = ["INPUT = fn_in , ", "OUTPUT = fn_out , ", "RECEIVE = fn_r , ", "SEND = fn_s , ", "ANALYZE = fn_an , ", "INTERNALLENGTH = 16 , ",
+                  "STORAGE = plain , ", "ALIGNMENT = double , ", "CATEGORY = 'U' , ", "DELIMITER = ',' , ", "COLLATABLE = true , ", "DEFAULT = 'x' , ",
+                  "ELEMENT = float4 , ", "LIKE = base_t , ", "PREFERRED = false , ", "TYPMOD_IN = f1 , ", "PASSEDBYVALUE , ", "VARIABLE , ",
+                  "DATAFILE 'f.dbf' ", "SIZE 20M ", "AUTOEXTEND ON ", "EXTENT MANAGEMENT LOCAL ", "LOGGING ", "ONLINE ", "BLOCKSIZE 8k ", "NEXT 10M "]
+
+
+def check_property_lines(ck, ctx, rule="O-line"):
+    """an entity written over several lines, one property per line: every property line - whatever word it starts with, as long as it
+    is not one of the documented statement-level words - is appended to the pending statement, none is skipped or starts a new
+    statement (the entity is handed to the grammar whole)"""
+    lm = LineMachine(ctx)
+    s0 = lm.initial()
+    n = 0
+    for opener, closer in (("CREATE TYPE geo.box  ( ", " ) ;"), ("CREATE TABLESPACE ts1", ";")):
+        bad = None
+        for ln in PROPERTY_LINES:
+            first = ln.split()[0].upper()
+            if first in ("CREATE", "ALTER", "DROP", "SET", "GO", "USE", "INSERT", "GRANT", "DELETE"):
+                continue
+            n += 1
+            try:
+                p0, st = lm._step1(s0, opener, True)
+                p1, st = lm._step1(st, ln, True)
+                p2, st = lm._step1(st, closer, True)
+                handed = list(p0) + list(p1) + list(p2)
+                want = " ".join((opener + " " + ln + " " + closer.rstrip(";")).split())
+                got = [" ".join(h.replace(" = ", "=").split()) for h in handed]
+                if got != [" ".join(want.replace(" = ", "=").split())]:
+                    bad = bad or (f"with the line {ln.strip()!r} the grammar is handed {handed!r}", f"{opener} / {ln} / {closer}")
+            except (PyRaise, Raised) as e:
+                bad = bad or (f"raises {e} on the line {ln.strip()!r}", f"{opener} / {ln} / {closer}")
+        ck.ob(rule, f"one property per line between `{opener.strip()}` and `{closer.strip()}`", bad is None,
+              "every property line is appended to the statement; the entity reaches the grammar whole" + ("" if bad is None else "; " + bad[0]),
+              "Parser.process_line (evaluated abstractly)", witness=None if bad is None else bad[1])
+    ck.count("property_line_instances", n)
